@@ -412,7 +412,7 @@ class Model(object):
     def op_vec_str_count(self, n, ln, _t):
         tot = 0
         for i in range(1, n + 1):
-            tot += (i % (ln + 1)) + 100
+            tot += ((i - 1) % (ln + 1)) + 100  # the first string is all blank
         return self.expect((tot,))
 
     # ---- arrays
@@ -451,6 +451,9 @@ class Model(object):
         self.caps[c] = hid
         return self.expect((n, sum(900 + i for i in range(n))))
 
+    def op_arr_fill_out(self, n, _b, _t):
+        return self.expect((n + 1, int(sum(0.5 * i for i in range(n + 1)) * 2)))
+
     def op_arr_sum(self, n, _b, _t):
         return self.expect((sum(3 * i for i in range(1, n + 1)) + 1000000 * n,))
 
@@ -470,7 +473,7 @@ class Model(object):
     def op_char_arr(self, n, ln, _t):
         tot = 0
         for i in range(1, n + 1):
-            tot += (i % (ln + 1)) + 100
+            tot += ((i - 1) % (ln + 1)) + 100  # first string all blank; some last strings exactly full
         return self.expect((tot,))
 
     # ---- C subject: structs passed and returned by value / pointer (no ownership involved)
@@ -519,7 +522,7 @@ OPS_COMMON = ["item_default", "item_val", "item_delete", "item_value", "item_set
               "vec_sum", "vec_iota", "vec_inc", "vec_alloc", "vec_ret", "vec_str_count",
               "arr_new", "arr_lib", "arr_new_alloc", "cap_delete", "cap_scope",
               "arr_pat", "arr_sum", "char_grow", "ref_item", "vec_ret_d", "char_arr",
-              "str_ptr_in", "str_val_in", "char_ret_len", "char_ret_null", "vec_iota_d"]
+              "str_ptr_in", "str_val_in", "char_ret_len", "char_ret_null", "vec_iota_d", "arr_fill_out"]
 
 TEXTS = ["", " ", "a", "hello", "two words", "  lead", "trail  ", "exactly-twenty-chars", "x" * 40,
          "MiXeD 123 !?", "tab-less ~ text", "ends with blank "]
@@ -554,13 +557,19 @@ def gen_op(rng, model, enabled, uniq):
         return [name, s, t]
     if name in ("str_ref", "str_lib", "arr_lib"):
         return [name]
-    if name in ("str_val", "str_owned", "char_ret", "vec_sum", "vec_iota", "vec_inc", "vec_alloc", "vec_ret",
-                "arr_new_alloc", "cap_scope", "arr_sum", "vec_ret_d"):
+    if name in ("vec_sum", "arr_sum"):
+        return [name, lengths(rng), rng.randrange(4)]  # second argument: kind of Python sequence
+    if name in ("str_val", "str_owned", "char_ret", "vec_iota", "vec_inc", "vec_alloc", "vec_ret",
+                "arr_new_alloc", "cap_scope", "vec_ret_d"):
         return [name, lengths(rng)]
     if name == "char_ret_null":
         return [name, rng.choice([-1, -1, 0, 3, 17])]
     if name == "char_ret_len":
-        return [name, rng.choice([0, 1, 7, 29, 30])]
+        return [name, rng.choice([0, 1, 7, 29, 30, 31, 45, 60])]
+    if name == "arr_fill_out":
+        return [name, rng.choice([0, 1, 2, 5, 16])]
+    if name in ("vec_sum", "arr_sum"):
+        return [name, lengths(rng), rng.randrange(4)]
     if name == "vec_iota_d":
         return [name, lengths(rng)]
     if name == "box_release":
@@ -608,7 +617,7 @@ def gen_op(rng, model, enabled, uniq):
 
 LEAKABLE = ["item_value", "item_label", "use_item", "sum_items", "box_value", "str_ref", "str_val", "str_lib",
             "str_in", "str_ptr_in", "str_val_in", "char_ret_len", "str_out", "str_inout", "char_out", "char_ret", "vec_sum", "vec_iota", "vec_alloc", "vec_ret",
-            "arr_lib", "arr_sum", "char_arr", "bad_vec_sum", "bad_arg", "bad_arr_sum"]
+            "arr_lib", "arr_sum", "arr_fill_out", "char_arr", "bad_vec_sum", "bad_arg", "bad_arr_sum"]
 PY_ONLY = ["box_delete", "bad_vec_sum", "bad_arg", "nomem", "bad_arr_sum"] + ["leak_" + n for n in LEAKABLE]
 # char_inout: the Python wrapper hands the str object's own UTF-8 buffer to the library, which
 # upper-cases it in place and thereby corrupts interned strings of the interpreter (a C03 defect;
@@ -619,7 +628,7 @@ NOT_PY = ["copy_item", "vec_inc", "vec_str_count", "cap_delete", "cap_scope", "c
 C_ONLY = ["item_release", "box_release", "cstr_ref", "cstr_lib", "cstr_owned", "cstr_in", "cstr_out", "cstr_inout"]
 
 
-C_SUBJECT_OPS = ["char_out", "char_ret", "char_inout", "char_grow", "char_arr", "arr_lib"]
+C_SUBJECT_OPS = ["char_out", "char_ret", "char_ret_len", "char_inout", "char_grow", "char_arr", "arr_lib"]
 PAIR_OPS = ["pair_sum", "pair_ptr", "pair_out", "pair_ret", "pair_ret_ptr"]
 
 
